@@ -39,3 +39,6 @@ for name in names:
         sh('git -C /repo checkout -- .')
 assert sh('git -C /repo status --porcelain --untracked-files=no').stdout.strip() == ''
 json.dump(results, open(respath, 'w'), indent=1, sort_keys=True)
+# evidence files must describe the unchanged tree: re-run the affected checks on it
+for pid in sorted({n.split('_')[0] for n in names if n.split('_')[0] in cmds}):
+    subprocess.run(cmds[pid], shell=True, capture_output=True, text=True, cwd=VERIF)
